@@ -21,6 +21,8 @@ NUMS += ["18446744073709551616", "1152921504606847000", "999999999999999900000",
          "9007199254740992", "9007199254740994", "36028797018963968", "72057594037927936", "4611686018427387904", "9223372036854775807", "-9223372036854775808", "295147905179352830000",
          "1e17", "1.5e17", "12345678901234567890", "98765432109876543210", "-18446744073709552000", "4.35e20", "0.000001", "0.0000001", "123456.789e3", "1.7976931348623157e308", "2.2250738585072014e-308",
          "4.9e-324", "0.30000000000000004", "1e-6", "1e-5", "123e-20", "0.1e1", "5e-1", "1.00000000000000011102230246251565", "3.141592653589793238462643383279"]
+# many-digit texts (the grammar has no length limit): integers, fractions and exponents across the host's conversion limits
+NUMS += ["1" * 26, "9" * 310, "1" * 4300, "1" * 4301, "-" + "9" * 5000, "1" * 8192, "0." + "0" * 400 + "1", "1." + "5" * 5000, "1e" + "0" * 50 + "5", "1" + "0" * 400 + "e-400", "-0." + "0" * 4400, "12" * 2200 + ".5e-4400"]
 STRS = ['""', '"a"', '"\\n"', '"\\""', '"\\\\"', '"\\/"', '"\\u0041"', '"\\u00e9"', '"é"', '"\\ud83d\\ude00"', '"😀"', '"\\ud800"', '"\\u0000"', '"\\b\\f\\r\\t"', '"\\u2028"',
         '"a\\u0001b"', '"__proto__"', '"\x7f"', '"</script>"']
 WS = ["", " ", "\n", "\t", "\r", " \n\t\r "]
